@@ -39,6 +39,20 @@ type samp struct {
 
 var decNames = []string{"Drop", "RecordOnly", "RecordAndSample"}
 
+// decCoq: the three decisions, or an out-of-range SamplingDecision value (3..255) a custom sampler may answer.
+func decCoq(d int) string {
+	if d < 3 {
+		return decNames[d]
+	}
+	return vgen.App("DOther", vgen.N(uint64(d-3)))
+}
+func decName(d int) string {
+	if d < 3 {
+		return decNames[d]
+	}
+	return fmt.Sprintf("Decision(%d)", d)
+}
+
 func (s *samp) coq() string {
 	switch s.Kind {
 	case "always":
@@ -54,7 +68,7 @@ func (s *samp) coq() string {
 		if s.TS != nil {
 			ts = vgen.Some(vgen.HxS(*s.TS))
 		}
-		return vgen.App("SCustom", decNames[s.Dec], ts)
+		return vgen.App("SCustom", decCoq(s.Dec), ts)
 	}
 }
 
@@ -66,9 +80,9 @@ func (s *samp) String() string {
 		return fmt.Sprintf("parent(%v,%v,%v,%v,%v)", s.Sub[0], s.Sub[1], s.Sub[2], s.Sub[3], s.Sub[4])
 	case "custom":
 		if s.TS != nil {
-			return fmt.Sprintf("custom(%s,%q)", decNames[s.Dec], *s.TS)
+			return fmt.Sprintf("custom(%s,%q)", decName(s.Dec), *s.TS)
 		}
-		return fmt.Sprintf("custom(%s)", decNames[s.Dec])
+		return fmt.Sprintf("custom(%s)", decName(s.Dec))
 	}
 	return s.Kind
 }
@@ -635,6 +649,9 @@ func genLeaf(r *vgen.Rand) *samp {
 		return &samp{Kind: "ratio", Bits: genRatio(r)}
 	default:
 		c := &samp{Kind: "custom", Dec: r.Intn(3)}
+		if r.Chance(1, 6) { // a decision outside the three defined values
+			c.Dec = vgen.Pick(r, []int{3, 4, 255, 128})
+		}
 		if r.Chance(1, 2) {
 			ts := vgen.Pick(r, customTS)
 			c.TS = &ts
@@ -932,7 +949,7 @@ func main() {
 			w.Tally(fmt.Sprintf("program:starts<=%d", (len(p.Ops)+3)/4*4))
 			for _, sp := range ob.Spans {
 				if sp.HasAns {
-					w.Tally("decision:" + decNames[sp.Dec])
+					w.Tally("decision:" + decName(sp.Dec))
 				}
 			}
 			w.Add(vgen.App("CProg", args...), desc, kind, nontriv)
@@ -966,6 +983,8 @@ func main() {
 			{Kind: "parent", Sub: []*samp{{Kind: "ratio", Bits: half}, {Kind: "always"}, {Kind: "never"}, {Kind: "always"}, {Kind: "never"}}},
 			{Kind: "parent", Sub: []*samp{{Kind: "never"}, {Kind: "always"}, {Kind: "never"}, {Kind: "always"}, {Kind: "never"}}},
 			{Kind: "custom", Dec: 1}, {Kind: "custom", Dec: 0}, {Kind: "custom", Dec: 2},
+			{Kind: "custom", Dec: 3}, {Kind: "custom", Dec: 4}, {Kind: "custom", Dec: 255},
+			{Kind: "parent", Sub: []*samp{{Kind: "custom", Dec: 3}, {Kind: "custom", Dec: 255}, {Kind: "custom", Dec: 4}, {Kind: "custom", Dec: 3}, {Kind: "custom", Dec: 255}}},
 		} {
 			addProg(s, p, "program-corpus")
 		}
